@@ -37,7 +37,7 @@ func c16Word(r *Rand, lo, hi int) string {
 }
 
 func (propC16) Gen(r *Rand) *Plan {
-	nops := r.Range(2, 24*Scale)
+	nops := r.Range(2, 24*r.Size())
 	var ops []Op
 	var syms []string
 	for i := 0; i < nops; i++ {
